@@ -449,4 +449,38 @@ def RawOK (f : Finding) : Bool :=
   f.stack.all (fun l => attrOK l.file && attrOK l.origFile) &&
   (splitSymbols f.symbols).all textOK
 
+/-! ## conformance to cppcheck-errors.rng (element / attribute grammar; the tables come from the translator) -/
+
+/-- all required names occur, every name is required or optional -/
+def namesConform (req opt : List Str) (names : List Str) : Bool :=
+  req.all (fun r => names.contains r) && names.all (fun a => (req ++ opt).contains a)
+
+def lookupEl (els : List (Str × List Str × List Str × List Str)) (n : Str) : Option (List Str × List Str × List Str) :=
+  (els.find? (fun e => e.1 = n)).map (fun e => e.2)
+
+def elReq (els : List (Str × List Str × List Str × List Str)) (n : Str) : List Str :=
+  match lookupEl els n with | some (r, _, _) => r | none => []
+def elOpt (els : List (Str × List Str × List Str × List Str)) (n : Str) : List Str :=
+  match lookupEl els n with | some (_, o, _) => o | none => []
+def elCh (els : List (Str × List Str × List Str × List Str)) (n : Str) : List Str :=
+  match lookupEl els n with | some (_, _, c) => c | none => []
+
+/-- `<error>` with its `<location>` / `<symbol>` children against the grammar `els` and the severity choice `sevs`
+    (datatype facets — NCName id, integer ranges — are not modelled) -/
+def conformsRng (els : List (Str × List Str × List Str × List Str)) (sevs : List Str) (x : XErr) : Bool :=
+  (lookupEl els "error".toList).isSome && (lookupEl els "location".toList).isSome && (lookupEl els "symbol".toList).isSome &&
+  namesConform (elReq els "error".toList) (elOpt els "error".toList) (x.attrs.map (fun a => a.1)) &&
+  (match x.attrs.lookup "severity".toList with
+   | some v => sevs.contains v
+   | none => false) &&
+  (x.locs.isEmpty || (elCh els "error".toList).contains "location".toList) &&
+  (x.syms.isEmpty || (elCh els "error".toList).contains "symbol".toList) &&
+  x.locs.all (fun la => namesConform (elReq els "location".toList) (elOpt els "location".toList) (la.map (fun a => a.1)))
+
+/-- a finding that uses none of the later additions to the report: no guideline / classification / remark, no
+    location whose original file name differs, one of the six user-visible severities -/
+def rngPlain (f : Finding) : Bool :=
+  f.guideline = [] && f.classification = [] && f.remark = [] && f.stack.all (fun l => l.origFile = l.file) &&
+  decide (1 ≤ f.severity) && decide (f.severity ≤ 6)
+
 end Cppcheck.XmlEsc
